@@ -318,7 +318,7 @@ Section Oracle.
       /\ (alg = sa \/ alg = "").
   Proof.
     intros k v ks t m now c' alg H.
-    destruct k as [| | | |a]; cbn [run_verifier] in H.
+    destruct k as [| | |dg|a]; cbn [run_verifier] in H.
     - unfold verify_id_token in H. destruct m as [| | | |bytes c]; try discriminate.
       peel H.
       destruct (check_signature verify (v_algs v) ks t bytes) as [sa|] eqn:Hs; [|discriminate].
@@ -452,80 +452,214 @@ Proof.
   intro c. unfold claims_eqb. now rewrite !seqb_refl, !Z.eqb_refl, list_string_eqb_refl.
 Qed.
 
+(* ---------- one remote key set instance over a rotation sequence ---------- *)
+Section RemoteSeq.
+  Variable verify : jwk -> sigentry -> string -> bool.
+
+  (* the key that verified comes from the cache when no download was needed, and
+     from the freshly served list otherwise: never from a list that has been replaced *)
+  Lemma remote_verify_sharp : forall cached served skip e p k,
+    remote_verify verify cached served skip e p = Some k ->
+    In k (if remote_needs_fetch verify cached skip e p
+          then match served with Some l => l | None => cached end else cached)
+    /\ trusted_key (KSOpenID None) e k = true /\ verify k e p = true.
+  Proof.
+    intros cached served skip e p k H.
+    assert (Hfetch : remote_fetch_verify verify served e p = Some k ->
+              In k (match served with Some l => l | None => cached end)
+              /\ trusted_key (KSOpenID None) e k = true /\ verify k e p = true).
+    { intro H0. destruct served as [l|]; cbn in H0; [|discriminate].
+      apply verify_found_sound in H0 as [Hf Hv].
+      apply (published_trusted (KSOpenID None)) in Hf as [Hin Ht]; [|intros; discriminate].
+      repeat split; assumption. }
+    unfold remote_verify in H. unfold remote_needs_fetch.
+    destruct cached as [|c0 cr] eqn:Hc; [now apply Hfetch|]. rewrite <- Hc in *.
+    destruct (find_matching_key (se_kid e) "sig" (se_alg e) cached) as [k'| |] eqn:Hf;
+      try (now apply Hfetch).
+    destruct (verify k' e p) eqn:Hv.
+    - inversion H; subst k'.
+      apply (published_trusted (KSOpenID None)) in Hf as [Hin Ht]; [|intros; discriminate].
+      repeat split; assumption.
+    - destruct (remote_exact skip (k_id k') (se_kid e)); [discriminate|]. cbn [negb]. now apply Hfetch.
+  Qed.
+
+  (* the state after a call: the served list iff a download succeeded *)
+  Lemma remote_after_state : forall allowed skip cached served t,
+    let st := remote_after verify allowed skip cached served t in
+    fst st = (if snd st then match served with Some l => l | None => cached end else cached)
+    /\ (snd st = true -> served <> None).
+  Proof.
+    intros allowed skip cached served t. unfold remote_after.
+    destruct (jose_parse (effective_algs allowed) t) as [| |[|e [|e2 r]] p]; cbn; try (split; [reflexivity | discriminate]).
+    destruct (remote_needs_fetch verify cached skip e p); cbn; [|split; [reflexivity | discriminate]].
+    destruct served; cbn; split; try reflexivity; try discriminate.
+  Qed.
+
+  (* CheckSignature on a remote key set believes a signature only under a key
+     of the list the key set holds AFTER the call (= last successful download) *)
+  Theorem remote_check_sound : forall allowed skip cached served t parsed alg,
+    check_signature verify allowed (KSRemote cached served skip) t parsed = Ok alg ->
+    exists e k,
+      tok_sigs t = [e] /\ tok_payload t = Some parsed /\ alg = se_alg e
+      /\ string_in alg (effective_algs allowed) = true
+      /\ In k (fst (remote_after verify allowed skip cached served t))
+      /\ trusted_key (KSOpenID None) e k = true
+      /\ verify k e parsed = true.
+  Proof.
+    intros allowed skip cached served t parsed alg H. unfold check_signature in H. unfold remote_after.
+    destruct t as [e p|sigs p|]; cbn [jose_parse] in *.
+    - destruct (string_in (se_alg e) (effective_algs allowed)) eqn:Ha; [|discriminate].
+      cbn [keyset_verify] in H.
+      destruct (remote_verify verify cached served skip e p) as [k|] eqn:Hk; [|discriminate].
+      destruct (p =s parsed) eqn:Hp; [|discriminate]. apply seqb_eq in Hp. subst p.
+      inversion H; subst alg. apply remote_verify_sharp in Hk as [Hin [Ht Hv]].
+      exists e, k. cbn [tok_sigs tok_payload]. repeat split; try assumption.
+      destruct (remote_needs_fetch verify cached skip e parsed); [|assumption].
+      destruct served; assumption.
+    - destruct (all_algs_allowed (effective_algs allowed) sigs) eqn:Ha; [|discriminate].
+      destruct sigs as [|e [|e2 r]]; try discriminate.
+      cbn [keyset_verify] in H.
+      destruct (remote_verify verify cached served skip e p) as [k|] eqn:Hk; [|discriminate].
+      destruct (p =s parsed) eqn:Hp; [|discriminate]. apply seqb_eq in Hp. subst p.
+      inversion H; subst alg. apply remote_verify_sharp in Hk as [Hin [Ht Hv]].
+      cbn in Ha. rewrite andb_true_r in Ha.
+      exists e, k. cbn [tok_sigs tok_payload]. repeat split; try assumption.
+      destruct (remote_needs_fetch verify cached skip e parsed); [|assumption].
+      destruct served; assumption.
+    - discriminate.
+  Qed.
+
+  (* every accepting call of a run is justified by the list held at that moment *)
+  Fixpoint run_justified (allowed : list string) (held : list jwk) (steps : list rstep)
+           (outs : list (result string * bool)) : Prop :=
+    match steps, outs with
+    | [], [] => True
+    | s :: r, (res, f) :: ro =>
+        let held' := if f then match rs_served s with Some l => l | None => held end else held in
+        (f = true -> rs_served s <> None)
+        /\ (forall alg, res = Ok alg ->
+            exists e k, tok_sigs (rs_tok s) = [e] /\ tok_payload (rs_tok s) = Some (rs_parsed s)
+                        /\ alg = se_alg e /\ string_in alg (effective_algs allowed) = true
+                        /\ In k held' /\ trusted_key (KSOpenID None) e k = true
+                        /\ verify k e (rs_parsed s) = true)
+        /\ run_justified allowed held' r ro
+    | _, _ => False
+    end.
+
+  Theorem remote_rotation_sound : forall allowed skip steps cached,
+    run_justified allowed cached steps (remote_run verify allowed skip cached steps).
+  Proof.
+    intros allowed skip steps. induction steps as [|s r IH]; intro cached; cbn [remote_run run_justified]; [exact I|].
+    destruct (remote_after_state allowed skip cached (rs_served s) (rs_tok s)) as [Hst Hf].
+    rewrite <- Hst. split; [assumption|]. split; [|apply IH].
+    intros alg Ha. now apply remote_check_sound in Ha.
+  Qed.
+End RemoteSeq.
+
+Lemma remote_seq_model : forall allowed skip steps cached,
+  remote_seq_spec allowed skip cached steps (remote_run sym_verify allowed skip cached steps) = true.
+Proof.
+  intros allowed skip steps. induction steps as [|s r IH]; intro cached; cbn [remote_run remote_seq_spec]; [reflexivity|].
+  destruct (remote_after_state sym_verify allowed skip cached (rs_served s) (rs_tok s)) as [Hst Hf].
+  rewrite <- Hst. rewrite IH, andb_true_r.
+  apply andb_true_iff; split.
+  - destruct (snd (remote_after sym_verify allowed skip cached (rs_served s) (rs_tok s))); [|reflexivity].
+    cbn. destruct (rs_served s); [reflexivity|]. exfalso. now apply Hf.
+  - destruct (check_signature sym_verify allowed (KSRemote cached (rs_served s) skip) (rs_tok s) (rs_parsed s))
+      as [alg|e] eqn:H.
+    + apply remote_check_sound in H as [e [k [H1 [H2 [H3 [H4 [H5 [H6 H7]]]]]]]].
+      unfold sig_genuine, sig_alg. rewrite H1, H2. subst alg. rewrite H4, !seqb_refl. cbn [andb].
+      rewrite !andb_true_r. apply existsb_exists. exists k. split; [assumption|].
+      cbn [trusted_key] in *. now rewrite H7, H6.
+    + destruct (sig_complete allowed (KSRemote cached (rs_served s) skip) (rs_tok s) (rs_parsed s)) eqn:Hc;
+        [|reflexivity].
+      apply check_signature_complete in Hc. congruence.
+Qed.
+
+Lemma verify_step_model : forall k v ks t m now0,
+  verify_step_ok k v ks t m (run_verifier sym_verify k v ks t m now0) = true.
+Proof.
+  intros k v ks t m now0.
+  destruct (run_verifier sym_verify k v ks t m now0) as [c' alg|c' alg e|e] eqn:H; cbn [verify_step_ok]; [| |reflexivity].
+  + assert (Ho : outcome_claims (run_verifier sym_verify k v ks t m now0) = Some (c', alg))
+      by now rewrite H.
+    apply each_verifier in Ho as [bytes [c [sa [Hm [Hc [Hs Ha]]]]]].
+    unfold accept_ok. subst m c'. rewrite claims_eqb_refl.
+    apply check_signature_genuine in Hs as [Hg Hsa]. rewrite Hg. cbn [andb].
+    (* the reported algorithm *)
+    destruct k as [| | |dg|a]; cbn [run_verifier] in H; cbn [alg_reported].
+    * unfold verify_id_token in H.
+      repeat match type of H with context [andthen ?a _] => destruct a; cbn [andthen] in H; [discriminate|] end.
+      destruct (check_signature sym_verify (v_algs v) ks t bytes) as [s2|] eqn:H2; [|discriminate].
+      repeat match type of H with context [andthen ?a _] => destruct a; cbn [andthen] in H; [discriminate|] end.
+      inversion H; subst. apply check_signature_genuine in H2 as [_ H2]. subst. apply seqb_refl.
+    * unfold verify_access_token in H.
+      repeat match type of H with context [andthen ?a _] => destruct a; cbn [andthen] in H; [discriminate|] end.
+      destruct (check_signature sym_verify (v_algs v) ks t bytes) as [s2|] eqn:H2; [|discriminate].
+      repeat match type of H with context [andthen ?a _] => destruct a; cbn [andthen] in H; [discriminate|] end.
+      inversion H; subst. apply check_signature_genuine in H2 as [_ H2]. subst. apply seqb_refl.
+    * unfold verify_id_token_hint in H.
+      repeat match type of H with context [andthen ?a _] => destruct a; cbn [andthen] in H; [discriminate|] end.
+      destruct (check_signature sym_verify (v_algs v) ks t bytes) as [s2|] eqn:H2; [|discriminate].
+      repeat match type of H with context [andthen ?a _] => destruct a; cbn [andthen] in H; [discriminate|] end.
+      destruct (chk_expiration c (v_offset v) now0); [discriminate|].
+      destruct (chk_issued_at c (v_max_iat v) (v_offset v) now0); [discriminate|].
+      destruct (chk_auth_time c (v_max_age v) now0); [discriminate|].
+      inversion H; subst. apply check_signature_genuine in H2 as [_ H2]. subst. apply seqb_refl.
+    * unfold verify_jwt_assertion in H.
+      repeat match type of H with context [andthen ?a _] => destruct a; cbn [andthen] in H; [discriminate|] end.
+      destruct (check_signature sym_verify [] (bind_profile ks (c_iss c)) t bytes); [|discriminate].
+      inversion H; subst. reflexivity.
+    * unfold parse_request_object in H.
+      repeat match type of H with context [andthen ?a _] => destruct a; cbn [andthen] in H; [discriminate|] end.
+      destruct (check_signature sym_verify [] (bind_profile ks (c_iss c)) t bytes); [|discriminate].
+      inversion H; subst. reflexivity.
+  + assert (Ho : outcome_claims (run_verifier sym_verify k v ks t m now0) = Some (c', alg))
+      by now rewrite H.
+    apply each_verifier in Ho as [bytes [c [sa [Hm [Hc [Hs Ha]]]]]].
+    destruct k as [| | |dg|a]; cbn [run_verifier] in H.
+    * exfalso. unfold verify_id_token in H. subst m.
+      repeat match type of H with context [andthen ?a _] => destruct a; cbn [andthen] in H; [discriminate|] end.
+      destruct (check_signature sym_verify (v_algs v) ks t bytes); [|discriminate].
+      repeat match type of H with context [andthen ?a _] => destruct a; cbn [andthen] in H; [discriminate|] end.
+      discriminate.
+    * exfalso. unfold verify_access_token in H. subst m.
+      repeat match type of H with context [andthen ?a _] => destruct a; cbn [andthen] in H; [discriminate|] end.
+      destruct (check_signature sym_verify (v_algs v) ks t bytes); [|discriminate].
+      repeat match type of H with context [andthen ?a _] => destruct a; cbn [andthen] in H; [discriminate|] end.
+      discriminate.
+    * unfold accept_ok. subst m c'. rewrite claims_eqb_refl.
+      cbn [verifier_algs verifier_keyset] in Hs.
+      pose proof Hs as Hs2. apply check_signature_genuine in Hs2 as [Hg Hsa].
+      cbn [verifier_algs verifier_keyset]. rewrite Hg. cbn [andb alg_reported].
+      unfold verify_id_token_hint in H.
+      repeat match type of H with context [andthen ?a _] => destruct a; cbn [andthen] in H; [discriminate|] end.
+      rewrite Hs in H.
+      repeat match type of H with context [andthen ?a _] => destruct a; cbn [andthen] in H; [discriminate|] end.
+      destruct (chk_expiration c (v_offset v) now0);
+        [|destruct (chk_issued_at c (v_max_iat v) (v_offset v) now0);
+          [|destruct (chk_auth_time c (v_max_age v) now0)]];
+        inversion H; subst; apply seqb_refl.
+    * exfalso. unfold verify_jwt_assertion in H. subst m.
+      repeat match type of H with context [andthen ?a _] => destruct a; cbn [andthen] in H; [discriminate|] end.
+      destruct (check_signature sym_verify [] (bind_profile ks (c_iss c)) t bytes); discriminate.
+    * exfalso. unfold parse_request_object in H. subst m.
+      repeat match type of H with context [andthen ?a _] => destruct a; cbn [andthen] in H; [discriminate|] end.
+      destruct (check_signature sym_verify [] (bind_profile ks (c_iss c)) t bytes); discriminate.
+Qed.
+
 Theorem spec_model : forall i, spec i (model i) = true.
 Proof.
-  intros [kid use alg keys|allowed ks t parsed|k v ks t m now0 now1]; cbn [model spec].
+  intros [kid use alg keys|allowed ks t parsed|k v ks t m now0 now1|allowed skip steps|k v ks steps]; cbn [model spec].
   - apply find_spec_model.
   - destruct (check_signature sym_verify allowed ks t parsed) as [alg|e] eqn:H.
     + apply check_signature_genuine in H as [Hg Ha]. rewrite Hg. subst alg. now rewrite seqb_refl.
     + destruct (sig_complete allowed ks t parsed) eqn:Hc; [|reflexivity].
       apply check_signature_complete in Hc. congruence.
-  - destruct (run_verifier sym_verify k v ks t m now0) as [c' alg|c' alg e|e] eqn:H; [| |reflexivity].
-    + assert (Ho : outcome_claims (run_verifier sym_verify k v ks t m now0) = Some (c', alg))
-        by now rewrite H.
-      apply each_verifier in Ho as [bytes [c [sa [Hm [Hc [Hs Ha]]]]]].
-      unfold accept_ok. subst m c'. rewrite claims_eqb_refl.
-      apply check_signature_genuine in Hs as [Hg Hsa]. rewrite Hg. cbn [andb].
-      (* the reported algorithm *)
-      destruct k as [| | | |a]; cbn [run_verifier] in H; cbn [alg_reported].
-      * unfold verify_id_token in H.
-        repeat match type of H with context [andthen ?a _] => destruct a; cbn [andthen] in H; [discriminate|] end.
-        destruct (check_signature sym_verify (v_algs v) ks t bytes) as [s2|] eqn:H2; [|discriminate].
-        repeat match type of H with context [andthen ?a _] => destruct a; cbn [andthen] in H; [discriminate|] end.
-        inversion H; subst. apply check_signature_genuine in H2 as [_ H2]. subst. apply seqb_refl.
-      * unfold verify_access_token in H.
-        repeat match type of H with context [andthen ?a _] => destruct a; cbn [andthen] in H; [discriminate|] end.
-        destruct (check_signature sym_verify (v_algs v) ks t bytes) as [s2|] eqn:H2; [|discriminate].
-        repeat match type of H with context [andthen ?a _] => destruct a; cbn [andthen] in H; [discriminate|] end.
-        inversion H; subst. apply check_signature_genuine in H2 as [_ H2]. subst. apply seqb_refl.
-      * unfold verify_id_token_hint in H.
-        repeat match type of H with context [andthen ?a _] => destruct a; cbn [andthen] in H; [discriminate|] end.
-        destruct (check_signature sym_verify (v_algs v) ks t bytes) as [s2|] eqn:H2; [|discriminate].
-        repeat match type of H with context [andthen ?a _] => destruct a; cbn [andthen] in H; [discriminate|] end.
-        destruct (chk_expiration c (v_offset v) now0); [discriminate|].
-        destruct (chk_issued_at c (v_max_iat v) (v_offset v) now0); [discriminate|].
-        destruct (chk_auth_time c (v_max_age v) now0); [discriminate|].
-        inversion H; subst. apply check_signature_genuine in H2 as [_ H2]. subst. apply seqb_refl.
-      * unfold verify_jwt_assertion in H.
-        repeat match type of H with context [andthen ?a _] => destruct a; cbn [andthen] in H; [discriminate|] end.
-        destruct (check_signature sym_verify [] (bind_profile ks (c_iss c)) t bytes); [|discriminate].
-        inversion H; subst. reflexivity.
-      * unfold parse_request_object in H.
-        repeat match type of H with context [andthen ?a _] => destruct a; cbn [andthen] in H; [discriminate|] end.
-        destruct (check_signature sym_verify [] (bind_profile ks (c_iss c)) t bytes); [|discriminate].
-        inversion H; subst. reflexivity.
-    + assert (Ho : outcome_claims (run_verifier sym_verify k v ks t m now0) = Some (c', alg))
-        by now rewrite H.
-      apply each_verifier in Ho as [bytes [c [sa [Hm [Hc [Hs Ha]]]]]].
-      destruct k as [| | | |a]; cbn [run_verifier] in H.
-      * exfalso. unfold verify_id_token in H. subst m.
-        repeat match type of H with context [andthen ?a _] => destruct a; cbn [andthen] in H; [discriminate|] end.
-        destruct (check_signature sym_verify (v_algs v) ks t bytes); [|discriminate].
-        repeat match type of H with context [andthen ?a _] => destruct a; cbn [andthen] in H; [discriminate|] end.
-        discriminate.
-      * exfalso. unfold verify_access_token in H. subst m.
-        repeat match type of H with context [andthen ?a _] => destruct a; cbn [andthen] in H; [discriminate|] end.
-        destruct (check_signature sym_verify (v_algs v) ks t bytes); [|discriminate].
-        repeat match type of H with context [andthen ?a _] => destruct a; cbn [andthen] in H; [discriminate|] end.
-        discriminate.
-      * unfold accept_ok. subst m c'. rewrite claims_eqb_refl.
-        cbn [verifier_algs verifier_keyset] in Hs.
-        pose proof Hs as Hs2. apply check_signature_genuine in Hs2 as [Hg Hsa].
-        cbn [verifier_algs verifier_keyset]. rewrite Hg. cbn [andb alg_reported].
-        unfold verify_id_token_hint in H.
-        repeat match type of H with context [andthen ?a _] => destruct a; cbn [andthen] in H; [discriminate|] end.
-        rewrite Hs in H.
-        repeat match type of H with context [andthen ?a _] => destruct a; cbn [andthen] in H; [discriminate|] end.
-        destruct (chk_expiration c (v_offset v) now0);
-          [|destruct (chk_issued_at c (v_max_iat v) (v_offset v) now0);
-            [|destruct (chk_auth_time c (v_max_age v) now0)]];
-          inversion H; subst; apply seqb_refl.
-      * exfalso. unfold verify_jwt_assertion in H. subst m.
-        repeat match type of H with context [andthen ?a _] => destruct a; cbn [andthen] in H; [discriminate|] end.
-        destruct (check_signature sym_verify [] (bind_profile ks (c_iss c)) t bytes); discriminate.
-      * exfalso. unfold parse_request_object in H. subst m.
-        repeat match type of H with context [andthen ?a _] => destruct a; cbn [andthen] in H; [discriminate|] end.
-        destruct (check_signature sym_verify [] (bind_profile ks (c_iss c)) t bytes); discriminate.
+  - apply verify_step_model.
+  - apply remote_seq_model.
+  - induction steps as [|s r IH]; cbn [map verify_seq_spec]; [reflexivity|].
+    now rewrite verify_step_model, IH.
 Qed.
 
 (* ---------- non-vacuity: concrete inputs meeting the theorems' hypotheses ---------- *)
